@@ -239,6 +239,28 @@ func cmdReplayCosOpt(args []string) error {
 				out.write(map[string]any{"entry": "Engine.GetCosmeticResult(h.com)", "rule": text, "expected": []string{wantSp2, wantGen2},
 					"got": []string{strings.Join(sp2, ","), strings.Join(cr2.ElementHiding.Generic, ",")}, "detail": fmt.Sprintf("%+v", cr2.ElementHiding), "case": c})
 			}
+			// a generic rule that only excludes some sites is a generic rule: the generic-CSS bit governs it like any other
+			if st4, err4 := layoutStorage([]string{"##.generic\n~other.example##.generic-but\nh.*##.wild\n"}, []int{4}); err4 == nil {
+				cr4 := urlfilter.NewEngine(st4).GetCosmeticResult("h.org", opt)
+				gen4 := append([]string{}, cr4.ElementHiding.Generic...)
+				sort.Strings(gen4)
+				wantSp4, wantGen4 := "", ""
+				for _, o := range wantDec {
+					if o == "css" {
+						wantSp4 = ".wild"
+					}
+					if o == "gcss" {
+						wantGen4 = ".generic,.generic-but"
+					}
+				}
+				evals++
+				if strings.Join(cr4.ElementHiding.Specific, ",") != wantSp4 || strings.Join(gen4, ",") != wantGen4 {
+					mism++
+					out.write(map[string]any{"entry": "Engine.GetCosmeticResult(h.org, a generic rule with an excluded site)", "rule": text,
+						"expected": []string{wantSp4, wantGen4}, "got": []string{strings.Join(cr4.ElementHiding.Specific, ","), strings.Join(gen4, ",")},
+						"detail": fmt.Sprintf("%+v", cr4.ElementHiding), "case": c})
+				}
+			}
 			evals++
 			if strings.Join(dec, ",") != strings.Join(wantDec, ",") {
 				mism++
